@@ -70,6 +70,12 @@ func RecvFilterList(c *rsyncwire.Conn) (*filterRuleList, error) {
 		if length == exclusionListEnd {
 			break
 		}
+		// rsync/exclude.c:recv_filter_list limits rules to MAXPATHLEN
+		// plus a few bytes of rule prefix.
+		const maxRuleLength = 4096 + 8
+		if length < 0 || length > maxRuleLength {
+			return nil, fmt.Errorf("overflow: filter rule length %d", length)
+		}
 		line := make([]byte, length)
 		if _, err := io.ReadFull(c.Reader, line); err != nil {
 			return nil, err
